@@ -9,6 +9,7 @@ import (
 func TestReplay(t *testing.T) {
 	verif.ReplayMain(map[string]func(){
 		"HarnessCloseEarly": HarnessCloseEarly,
+		"HarnessLateRead":   HarnessLateRead,
 		"HarnessReader":     HarnessReader,
 		"HarnessTwoCalls":   HarnessTwoCalls,
 	})
